@@ -34,6 +34,18 @@ CHECKS["C13"] = dict(
          "(over-approximation); that each accessor computes the RIGHT value is not part of C13",
     design="DESIGN.md section 3 C13", partial=False)
 
+CHECKS["C08"] = dict(
+    technique="queue-discipline who-may-mutate table, def-use of popped values, CFG dominance of the blocking wait by queue checks, protocol-order rules",
+    text="Static rules over Input: a frozen tail-in/head-out table for the six queues checked against every mutation site "
+         "of the package; every popped value flows to a return or to the decoder's buffer; the scheduled queue is sorted on "
+         "the time component only and every head-pop is preceded by that sort and guarded by a due test; the blocking wait "
+         "is dominated (CFG) by the empty branches of all queues and by a failed find_key(); wake-up protocol order "
+         "(append before os.write, readers registered, select watches stdin + wake-up fd + readers); paste loop refill "
+         "threshold against the folded MAX_KEYPRESS_SIZE; the wait reports a timeout only when select returned nothing.",
+    note="trusted: list.sort stability, select/os.read/os.write; not decided: real interleavings, thread races, float "
+         "remaining-time arithmetic",
+    design="DESIGN.md section 3 C08")
+
 NOT_APPLICABLE = [
     ("C06", "slicing/normalisation is integer arithmetic over run layouts; no structural clause is a necessary condition visible in the code shape"),
     ("C09", "five-way overlap arithmetic across runs; a sound static decision needs inductive integer invariants (solver family)"),
